@@ -16,6 +16,8 @@ import random
 
 NUM_VALUES = [0, 1, 2, 3, 5, 7, 10, 12, 20, 25, 50, 100, -1, -4, 0.5, 1.5, 2.25, 10.75]
 STR_VALUES = ["A", "B", "C", "D", "E"]
+# non-integer values of large magnitude: exact as decimals, not as binary doubles
+BIG_NUM = [324098.03, 1234567.89, 98765.4321, 1000000000.5, 7654321.07, -250000.01]
 DATE_VALUES = ["2020-01-31", "2020-02-29", "2020-03-31", "2020-04-30", "2020-06-30", "2020-07-31", "2020-09-30", "2020-12-31", "2021-03-31"]
 TP_VALUES = ["2020Q1", "2020Q2", "2020Q3", "2021Q1", "2020M01", "2020M06", "2021M12", "2019A", "2020S1", "2022"]
 VIRAL_VALUES = ["A", "B", "C", "N", "M", None]
@@ -38,6 +40,7 @@ class Family:
         self.has_at = rng.random() < 0.2
         self.viral = (rng.random() < 0.2) if viral is None else viral
         self.tricky = rng.random() < 0.3
+        self.bignum = rng.random() < 0.25
         self.tp_type = "Date" if (self.has_tp and rng.random() < 0.4) else "Time_Period"
         self.tp_n = rng.choice([4, 6, 9])
         self.id2_values = rng.sample(TRICKY_STR, 3) if self.tricky else STR_VALUES[:3]
@@ -87,7 +90,7 @@ class Family:
             if self.me1_type == "Integer":
                 r.append(None if rng.random() < 0.12 else rng.choice([v for v in NUM_VALUES if isinstance(v, int)]))
             else:
-                r.append(None if rng.random() < 0.12 else float(rng.choice(NUM_VALUES)))
+                r.append(None if rng.random() < 0.12 else float(rng.choice(BIG_NUM + NUM_VALUES[:4] if self.bignum else NUM_VALUES)))
             if self.has_me2:
                 r.append(None if rng.random() < 0.12 else float(rng.choice(NUM_VALUES)))
             if self.has_at:
@@ -174,7 +177,10 @@ def generate(rng, *, n_inputs=None, n_statements=None, rows=None, viral=None, ti
             expr = "%s %s %s" % (a, rng.choice(["+", "-", "*"]), const)
             reads = [a]
         elif r < 0.36:
-            expr = "%s[filter Me_1 %s %s]" % (a, rng.choice([">", "<", ">=", "<>"]), const)
+            if fam.bignum and fam.me1_type != "Integer" and rng.random() < 0.6:
+                expr = "%s[filter Me_1 %s %s]" % (a, rng.choice(["=", "<>", ">="]), rng.choice(BIG_NUM))
+            else:
+                expr = "%s[filter Me_1 %s %s]" % (a, rng.choice([">", "<", ">=", "<>", "="]), const)
             reads = [a]
         elif r < 0.43:
             expr = "%s[calc Me_1 := Me_1 %s %s]" % (a, rng.choice(["+", "*", "-"]), const)
